@@ -67,6 +67,17 @@ pub assume_specification<T, A, I> [ <std::vec::Vec<T, A> as std::iter::Extend<T>
 pub broadcast axiom fn axiom_into_seq_vec<T>(v: Vec<T>)
     ensures #[trigger] vx_into_seq::<T, Vec<T>>(v) == v@;
 
+/// A-std: `Vec<T>: Extend<&T>` (T: Copy) appends copies of the referenced elements; for `&Vec<T>`
+/// and `&[T; N]` these are the elements in order.
+pub uninterp spec fn vx_into_seq_ref<T, I>(i: I) -> Seq<T>;
+pub assume_specification<'a, T: Copy + 'a, A, I> [ <std::vec::Vec<T, A> as std::iter::Extend<&'a T>>::extend ] (v: &mut std::vec::Vec<T, A>, it: I)
+    where A: std::alloc::Allocator, I: std::iter::IntoIterator<Item = &'a T>,
+    ensures final(v)@ == old(v)@ + vx_into_seq_ref::<T, I>(it);
+pub broadcast axiom fn axiom_into_seq_ref_vec<'a, T>(v: &'a Vec<T>)
+    ensures #[trigger] vx_into_seq_ref::<T, &'a Vec<T>>(v) == v@;
+pub broadcast axiom fn axiom_into_seq_ref_array1<'a, T>(v: &'a [T; 1])
+    ensures #[trigger] vx_into_seq_ref::<T, &'a [T; 1]>(v) == v@;
+
 /// A-std: io::Error::new keeps the given kind (rewrite rule R2 maps `io::Error::new(kind, text)` here).
 #[verifier::external_body]
 pub fn vx_io_error_new(kind: std::io::ErrorKind, text: String) -> (r: std::io::Error)
